@@ -8,7 +8,7 @@
    distributions with a lambda-dependent singular part) and everything neutral-current (LeProHQ, third party): those are
    compared on real runs only. *)
 From Coq Require Import Reals ZArith List Bool String.
-From Yad Require Import Base Couplings Weights Combiner FFN0Theorems Expr SpecNLO GluonLimit QuarkLimit QuarkNLOLimit.
+From Yad Require Import Base Couplings Weights Combiner FFN0Theorems Expr KTactics SpecNLO Conv ConvGen GluonLimit QuarkLimit QuarkNLOLimit QuarkNLOInt GluonInt QuarkNLOInt2 SpecialRefl.
 From YadGen Require Import InstKernels Kernels.
 Import ListNotations.
 
@@ -109,3 +109,69 @@ Theorem C08_quark_NLO_FL_sing_partial sp z l : 0 < z < 1 -> 1 / 2 <= l < 1 ->
   Rabs (eval sp ik_heavy_fl_cc_NonSinglet_NLO_sing z [l]) <= (1 - l) * (Rabs (c2q1_sing z) + A2sing z / 2).
 Proof. exact (quark_fl_sing_limit sp z l). Qed.
 Print Assumptions C08_quark_NLO_FL_sing_partial.
+
+(* ---------------- the local part of the NLO quark channel: loc' = - sing on both sides (C03) turns the pointwise bound on the singular part
+   into a bound on the local part at EVERY x in [0,1), once its value at x = 0 is known; that value is in closed form given Euler's
+   reflection identity for the dilogarithm at lambda (hypothesis `reflection`; jointly satisfiable with special_ok: SpecialRefl.v; the
+   implementation's dilogarithm is checked against it numerically on every run) *)
+Theorem C08_quark_NLO_F2_loc sp l x : special_ok sp -> reflection sp l -> 1 / 2 <= l < 1 -> 0 <= x < 1 ->
+  Rabs (eval sp ik_heavy_f2_cc_NonSinglet_NLO_loc x [l] - c2q1_loc x) <= (1 - l) * (2 * CF * (4 + 6 * (- ln (1 - l))) + A2sing x * x).
+Proof. exact (quark_f2_loc_limit sp l x). Qed.
+Print Assumptions C08_quark_NLO_F2_loc.
+Theorem C08_quark_NLO_F3_loc sp l x : special_ok sp -> reflection sp l -> 1 / 2 <= l < 1 -> 0 <= x < 1 ->
+  Rabs (eval sp ik_heavy_f3_cc_NonSinglet_NLO_loc x [l] - c2q1_loc x) <= (1 - l) * (2 * CF * (13 + 4 * (- ln (1 - l))) + (A2sing x + Bsing x) * x).
+Proof. exact (quark_f3_loc_limit sp l x). Qed.
+Print Assumptions C08_quark_NLO_F3_loc.
+Theorem C08_quark_NLO_FL_loc sp l x : special_ok sp -> reflection sp l -> 1 / 2 <= l < 1 -> 0 <= x < 1 ->
+  Rabs (eval sp ik_heavy_fl_cc_NonSinglet_NLO_loc x [l]) <= (1 - l) * (2 * CF * (13 + 6 * (- ln (1 - l))) + (Bsing x + A2sing x / 2) * x).
+Proof. exact (quark_fl_loc_limit sp l x). Qed.
+Print Assumptions C08_quark_NLO_FL_loc.
+Theorem C08_dilogarithm_hypotheses_satisfiable : special_ok special_R2 /\ forall l, 0 < l < 1 -> reflection special_R2 l.
+Proof. exact (conj special_R2_ok reflection_R2). Qed.
+Print Assumptions C08_dilogarithm_hypotheses_satisfiable.
+
+(* ---------------- the statement of C08 for the CC F2 quark channel at NLO, in full: for ANY PDF p bounded by G and Lipschitz with constant Lp
+   on [x, 1], the massive contribution (improper convolution integral of the regenerated massive triple with p, value v) and the asymptotic one
+   (the massless NLO quark coefficient function, value w) differ by at most K (1-l)(1 + |ln(1-l)|), 1 - l = m2/(Q2 + m2), K explicit.
+   Hypotheses: the two dilogarithm facts above, and that the two improper integrals exist (is_conv). *)
+Theorem C08_quark_NLO_F2_any_pdf sp l x p G Lp v w : special_ok sp -> reflection sp l -> 1 / 2 <= l < 1 -> 0 < x < 1 -> 0 <= Lp ->
+  (forall u, x <= u <= 1 -> Rabs (p u) <= G) ->
+  (forall u t, x <= u <= 1 -> x <= t <= 1 -> Rabs (p u - p t) <= Lp * Rabs (u - t)) ->
+  is_conv (k_massive sp l) p x v -> is_conv k_massless p x w ->
+  Rabs (v - w) <= (1 - l) * (1 + - ln (1 - l)) * Kconst x G Lp.
+Proof. exact (quark_f2_distribution_rate sp l x p G Lp v w). Qed.
+Print Assumptions C08_quark_NLO_F2_any_pdf.
+
+(* the same for F3 and FL, and for the three gluon channels (regular part only; any bounded PDF) *)
+Theorem C08_quark_NLO_F3_any_pdf sp l x p G Lp v w : special_ok sp -> reflection sp l -> 1 / 2 <= l < 1 -> 0 < x < 1 -> 0 <= Lp ->
+  (forall u, x <= u <= 1 -> Rabs (p u) <= G) ->
+  (forall u t, x <= u <= 1 -> x <= t <= 1 -> Rabs (p u - p t) <= Lp * Rabs (u - t)) ->
+  is_conv (k_massive3 sp l) p x v -> is_conv k_massless3 p x w ->
+  Rabs (v - w) <= (1 - l) * (1 + - ln (1 - l)) * Kconst3 x G Lp.
+Proof. exact (quark_f3_distribution_rate sp l x p G Lp v w). Qed.
+Print Assumptions C08_quark_NLO_F3_any_pdf.
+Theorem C08_quark_NLO_FL_any_pdf sp l x p G Lp v w : special_ok sp -> reflection sp l -> 1 / 2 <= l < 1 -> 0 < x < 1 -> 0 <= Lp ->
+  (forall u, x <= u <= 1 -> Rabs (p u) <= G) ->
+  (forall u t, x <= u <= 1 -> x <= t <= 1 -> Rabs (p u - p t) <= Lp * Rabs (u - t)) ->
+  is_conv (k_massiveL sp l) p x v -> is_conv k_masslessL p x w ->
+  Rabs (v - w) <= (1 - l) * (1 + - ln (1 - l)) * KconstL x G Lp.
+Proof. exact (quark_fl_distribution_rate sp l x p G Lp v w). Qed.
+Print Assumptions C08_quark_NLO_FL_any_pdf.
+Theorem C08_gluon_F2_any_pdf sp l x p G v w : 1 / 2 <= l < 1 -> 0 < x < 1 -> (forall u, x <= u <= 1 -> Rabs (p u) <= G) ->
+  is_conv (reg_only (fun z => eval sp ik_heavy_f2_cc_Gluon_NLO_reg z [l])) p x v ->
+  is_conv (reg_only (fun z => eval sp ik_asy_f2_cc_AsyGluon_NLO_reg z [Lq l])) p x w ->
+  Rabs (v - w) <= (1 - l) * (1 + - ln (1 - l)) * (G / x * ((16 + 24 * - ln x) + 24 + 24 * (1 - ln (1 - x)) + 2 * 2 + 0 * (7 - ln (1 - x)))).
+Proof. exact (gluon_f2_any_pdf sp l x p G v w). Qed.
+Print Assumptions C08_gluon_F2_any_pdf.
+Theorem C08_gluon_FL_any_pdf sp l x p G v w : 1 / 2 <= l < 1 -> 0 < x < 1 -> (forall u, x <= u <= 1 -> Rabs (p u) <= G) ->
+  is_conv (reg_only (fun z => eval sp ik_heavy_fl_cc_Gluon_NLO_reg z [l])) p x v ->
+  is_conv (reg_only (fun z => eval sp ik_asy_fl_cc_AsyGluon_NLO_reg z [Lq l])) p x w ->
+  Rabs (v - w) <= (1 - l) * (1 + - ln (1 - l)) * (G / x * ((6 + 18 * - ln x) + 18 + 18 * (1 - ln (1 - x)) + 2 * 0 + 0 * (7 - ln (1 - x)))).
+Proof. exact (gluon_fl_any_pdf sp l x p G v w). Qed.
+Print Assumptions C08_gluon_FL_any_pdf.
+Theorem C08_gluon_F3_any_pdf sp l x p G v w : 1 / 2 <= l < 1 -> 0 < x < 1 -> (forall u, x <= u <= 1 -> Rabs (p u) <= G) ->
+  is_conv (reg_only (fun z => eval sp ik_heavy_f3_cc_Gluon_NLO_reg z [l])) p x v ->
+  is_conv (reg_only (fun z => eval sp ik_asy_f3_cc_AsyGluon_NLO_reg z [Lq l])) p x w ->
+  Rabs (v - w) <= (1 - l) * (1 + - ln (1 - l)) * (G / x * ((2 + 4 * - ln x) + 5 + 4 * (1 - ln (1 - x)) + 2 * 0 + 2 * (7 - ln (1 - x)))).
+Proof. exact (gluon_f3_any_pdf sp l x p G v w). Qed.
+Print Assumptions C08_gluon_F3_any_pdf.
